@@ -300,11 +300,8 @@ def r06_4(cx):
     mt = strip_convs(ml.local_term(0, expand=True))
     okm = is_call(mt, r'core::cmp::min$') and {tstr(x) for x in mt[2]} == {'4', 'packed::pattern::Patterns::minimum_len(self.patterns)'} or (is_call(mt, r'core::cmp::min$') and ('c', 4) in mt[2] and any('minimum_len' in tstr(x) for x in mt[2]))
     cx.report('R06.4', t, 'bucket-key', ok and okm, 'patterns sharing the low nybbles of their first min(4, minimum_len) bytes share a bucket' if ok and okm else 'Teddy bucket key is not low_nybbles(mask_len()) with mask_len = min(4, minimum_len)')
-    rk = cx.body('packed::rabinkarp::RabinKarp::find_at')
-    # candidates verified in bucket order, first hit returned
-    vg = discr_gates(rk, lambda x: is_call(x, r'RabinKarp::verify$'))
-    okr = bool(vg) and all(any(rk.blocks[r]['term']['k'] == 'return' for r in rk.reach(arms.get(1), cut_blocks=list(rk.loops()))) for gb, x, arms, oth in vg if arms.get(1) is not None)
-    cx.report('R06.4', rk, 'first-verified', okr, 'Rabin-Karp returns the first verified pattern of the bucket (bucket order = semantic order)' if okr else 'Rabin-Karp does not return at the first verified pattern')
+    from rules.rabinkarp import r06_4_rk
+    r06_4_rk(cx)
 
 
 @only(X86)
